@@ -29,6 +29,7 @@ that rules are invariant under the commonest behaviour-preserving rewrites:
       in the statements between two bindings
   N23 `if A: ..; x = E1 else: ..; x = E2` followed by `if x: BODY` (x used nowhere else)  ->  the test is sunk into the branches:
       `if A: ..; if E1: BODY  else: ..; if E2: BODY`
+  N25 `f = P if c else Q; f(args)` -> `if c: P(args) else: Q(args)` (a bound method chosen by a conditional expression);
   N24 a running maximum/minimum spelled as a guarded assignment: `if E > T: T = E` -> `T = max(T, E)` (mirror image for min);
       `if T is None or E < T: T = E` -> `if T is None: T = E else: T = min(T, E)`
   N19 `dict(k=v, ...)` (keywords only)  ->  `{"k": v, ...}`
@@ -285,6 +286,38 @@ class Desugar(ast.NodeTransformer):
                     out.append(new)
                     continue
             out.append(st)
+        return out
+
+    def _sink_callable_choice(self, stmts):
+        # N25: f = P if c else Q   directly followed by the statement   f(args)   (f a plain local used nowhere else in the block)
+        #      ->  if c: P(args)  else: Q(args)
+        out = []
+        i = 0
+        while i < len(stmts):
+            s = stmts[i]
+            nxt = stmts[i + 1] if i + 1 < len(stmts) else None
+            if isinstance(s, ast.Assign) and len(s.targets) == 1 and isinstance(s.targets[0], ast.Name) \
+                    and isinstance(s.value, ast.IfExp) and _is_path(s.value.body) and _is_path(s.value.orelse) \
+                    and isinstance(nxt, ast.Expr) and isinstance(nxt.value, ast.Call) and isinstance(nxt.value.func, ast.Name) \
+                    and nxt.value.func.id == s.targets[0].id:
+                name = s.targets[0].id
+                uses = sum(1 for st in stmts for x in ast.walk(st) if isinstance(x, ast.Name) and x.id == name)
+                if uses == 2:
+                    def mk(target):
+                        c = ast.Call(func=copy.deepcopy(target), args=copy.deepcopy(nxt.value.args),
+                                     keywords=copy.deepcopy(nxt.value.keywords))
+                        e = ast.Expr(value=c)
+                        ast.copy_location(e, nxt)
+                        ast.fix_missing_locations(e)
+                        return e
+                    node = ast.If(test=s.value.test, body=[mk(s.value.body)], orelse=[mk(s.value.orelse)])
+                    ast.copy_location(node, s)
+                    ast.fix_missing_locations(node)
+                    out.append(node)
+                    i += 2
+                    continue
+            out.append(s)
+            i += 1
         return out
 
     def _return_temps(self, stmts):
@@ -558,6 +591,7 @@ class Desugar(ast.NodeTransformer):
             r = self.visit(s)
             visited.extend(r if isinstance(r, list) else [r])
         visited = self._loops_to_builtins(visited)
+        visited = self._sink_callable_choice(visited)
         visited = self._return_temps(visited)
         visited = self._split_parallel_assignments(visited)
         visited = self._dict_calls(visited)
